@@ -46,8 +46,8 @@ type vhnlEndpoint struct {
 
 type vhnlScenario struct {
 	ID        string         `json:"id"`
-	Lose      int            `json:"lose"`  // node index to lose
-	Mode      string         `json:"mode"`  // graceful | crash | mid (crash MidMs after Shutdown started)
+	Lose      int            `json:"lose"` // node index to lose
+	Mode      string         `json:"mode"` // graceful | crash | mid (crash MidMs after Shutdown started)
 	MidMs     int            `json:"mid_ms"`
 	Phase     string         `json:"phase"` // idle | connected | inflight
 	GossipMs  int            `json:"gossip_ms"`
@@ -871,7 +871,11 @@ func vhnlRun(sc vhnlScenario) (obs vhnlObs) {
 	for _, s := range survivors {
 		for _, e := range sc.Endpoints {
 			rec := vhnlRecovery{Node: s.id, Ep: e.ID, OkMs: -1}
-			vhnlUntil(remain(), func() bool {
+			rb := remain()
+			if obs.ReregMs < 0 && rb > 3*time.Second {
+				rb = 3 * time.Second // the listeners are not all back: the scenario has failed already, do not wait it out
+			}
+			vhnlUntil(rb, func() bool {
 				rec.Tries++
 				q := rq.do("recovery", s, e.ID, false)
 				if vhnlGood(q) {
